@@ -314,6 +314,7 @@ func genLeftover(cfg simkit.RunConfig, backend string) *Scenario {
 	}
 	sc.Knobs.LongTTL = true
 	sc.Knobs.Delays = genDelays(r)
+	sc.Knobs.GoDelayPm = genGoDelay(r)
 	return sc
 }
 
@@ -757,5 +758,6 @@ func genLockRetry(cfg simkit.RunConfig, backend string) *Scenario {
 	if r.Intn(4) == 0 {
 		sc.Knobs.Delays = nil
 	}
+	sc.Knobs.GoDelayPm = []int{0, 300, 700}[r.Intn(3)]
 	return sc
 }
